@@ -23,6 +23,8 @@ A2(k) == LET P == E2!ScalarMul(FromNat(k), G2Gen) IN <<Raw2(P[1]), Raw2(P[2]), 0
 O1 == <<Raw1(Rnd(90)), Raw1(Rnd(91)), Raw1(Zero)>>                    \* the identity, arbitrary x and y
 GTv(k) == Raw12(<<<<<<Rnd(k), Rnd(k + 1)>>, <<Rnd(k + 2), Rnd(k + 3)>>, <<Rnd(k + 4), Rnd(k + 5)>>>>, <<<<Rnd(k + 6), Rnd(k + 7)>>, <<Rnd(k + 8), Rnd(k + 9)>>, <<Rnd(k + 10), Rnd(k + 11)>>>>>>)
 MaxL == IF Tier = "quick" THEN 3 ELSE 5
+\* slot counts at and just above the sizes an implementation might batch by (8, 16, 32)
+BigLs == IF Tier = "quick" THEN {17} ELSE {8, 9, 16, 17, 33}
 IdxOf(i) == CASE i = 1 -> 0 [] i = 2 -> 2 [] i = 3 -> 16909060 [] i = 4 -> 16909061 [] OTHER -> 1000000 + i          \* 16909060 = 0x01020304
 Key(lc, sg) == [sigs |-> sg, a0 |-> J1(3), a1 |-> J2(4), bsig |-> IF sg = 1 THEN J1(5) ELSE O1, idx |-> [i \in 1..lc |-> IdxOf(i)], b |-> [i \in 1..lc |-> J1(10 + i)]]
 \* pairing value consistent with g2, g1 (compressed parameters recompute it): e([7]G1, [6]G2) -- supplied by the caller as raw bytes
@@ -32,8 +34,8 @@ Fixed == << <<"wk.ct", [a |-> GTv(100), b |-> J2(11), c |-> J1(12)]>>, <<"wk.sig
             <<"lq.msk", [s |-> Pad(Sub(Pow2(256), FromNat(3)), 32)]>>, <<"wk.msk", [g2alpha |-> O1]>>, <<"lq.id", [q |-> <<Raw1(Zero), Raw1(One), 1>>]>> >>
 PV == Raw12(F12Exp(GTGen, FromNat(42)))                 \* e([7]G1, [6]G2)
 ObjCases ==
-  SetToSeq({ [op |-> "mar.object", kind |-> "wk.key", comp |-> c, obj |-> Key(lc, sg), src |-> "gen"] : lc \in 0..MaxL, sg \in {0, 1}, c \in {0, 1} })
-  \o SetToSeq({ [op |-> "mar.object", kind |-> "wk.params", comp |-> c, obj |-> Params(lc, sg, PV), src |-> "gen"] : lc \in 0..MaxL, sg \in {0, 1}, c \in {0, 1} })
+  SetToSeq({ [op |-> "mar.object", kind |-> "wk.key", comp |-> c, obj |-> Key(lc, sg), src |-> "gen"] : lc \in (0..MaxL) \cup BigLs, sg \in {0, 1}, c \in {0, 1} })
+  \o SetToSeq({ [op |-> "mar.object", kind |-> "wk.params", comp |-> c, obj |-> Params(lc, sg, PV), src |-> "gen"] : lc \in (0..MaxL) \cup BigLs, sg \in {0, 1}, c \in {0, 1} })
   \o SetToSeq({ [op |-> "mar.object", kind |-> Fixed[i][1], comp |-> c, obj |-> Fixed[i][2], src |-> "gen"] : i \in 1..Len(Fixed), c \in {0, 1} })
 
 \* ---- corrupted buffers --------------------------------------------------------------------------------------------
